@@ -358,9 +358,9 @@ func (b *ByteBuffer) PrepareRead(n int) (err error) {
 // in the callback and the unused bytes will be used in future claims.
 func (b *ByteBuffer) Claim(fn func(b []byte) int) {
 	n := fn(b.data[b.wi:cap(b.data)])
-	if wi := b.wi + n; n >= 0 && wi <= cap(b.data) {
+	if n >= 0 && n <= cap(b.data)-b.wi {
 		// wi <= cap(b.data) because the invariant is that b.wi = min(len(b.data), cap(b.data)) after each call
-		b.wi = wi
+		b.wi += n
 		b.data = b.data[:b.wi]
 	}
 }
